@@ -38,6 +38,7 @@ def run(ctx, repo):
     XL.construct_protocol(ctx, repo)
     ctx.call(R6B.r_deep_iff_setstate, repo)
     ctx.call(R6B.r_reduce_exact_type, repo)
+    ctx.call(RX.r_getattr_chain, repo)
 
 
 if __name__ == '__main__':
